@@ -42,6 +42,8 @@ pub fn history_case(ch: &mut Chooser, t: &mut Tally) {
     let nsec = ch.pick_free_named("sections", NSEC) + 1;
     let valkind = ch.pick_named("valkind", VALKIND);
     let layout = ch.pick_named("layout", LAYOUT);
+    // a producer may write the free entry of a deleted object without incrementing its generation
+    let keep_gen = ch.pick_named("free-generation", &["incremented", "kept"]) == 1;
     let first_nr: u64 = if layout == 1 || layout == 2 { 1 } else { 3 };
     let (cat_nr, pages_nr): (u64, u64) = if first_nr == 1 { (7, 8) } else { (1, 2) };
     let restate_head = layout == 0 || layout == 1;
@@ -101,7 +103,7 @@ pub fn history_case(ch: &mut Chooser, t: &mut Tally) {
                 }
                 _ => {
                     let was = *in_use.get(&nr).unwrap_or(&false);
-                    let ng = if was { g + 1 } else { g };
+                    let ng = if was && !keep_gen { g + 1 } else { g };
                     cur_gen.insert(nr, ng);
                     in_use.insert(nr, false);
                     fb.free(nr, ng);
@@ -211,6 +213,150 @@ pub fn history_case(ch: &mut Chooser, t: &mut Tally) {
     }
 }
 
+// ------------------------------------------------------------------------------------------------
+// long chains: many updates of the same few objects (the number of sections exceeds the number of objects)
+
+const CHAIN_LEN: &[&str] = &["4", "5", "6", "7", "8", "9", "10", "12", "16", "24"];
+const CHAIN_FORMAT: &[&str] = &["all-tables", "all-streams", "alternating", "streams-then-tables"];
+const CHAIN_XREF_NR: &[&str] = &["fresh-number-per-xref-stream", "same-number-reused"];
+const CHAIN_TOUCH: &[&str] = &["rewrite-round-robin", "rewrite-and-free-alternately", "always-object-3"];
+const CHAIN_CACHE: &[&str] = &["uncached", "cached"];
+
+pub fn chain_case(ch: &mut Chooser, t: &mut Tally) {
+    let nsec: usize = CHAIN_LEN[ch.pick_free_named("sections", CHAIN_LEN)].parse().unwrap();
+    let fmt = ch.pick_free_named("formats", CHAIN_FORMAT);
+    let xnr = ch.pick_free_named("xref-stream-number", CHAIN_XREF_NR);
+    let touch = ch.pick_free_named("touch", CHAIN_TOUCH);
+    let cache = ch.pick_free_named("cache", CHAIN_CACHE);
+    let mut fb = FileBuilder::new(b"");
+    let mut expect: std::collections::BTreeMap<u64, Expect> = Default::default();
+    let mut cur_gen: std::collections::BTreeMap<u64, u16> = Default::default();
+    let mut in_use: std::collections::BTreeMap<u64, bool> = Default::default();
+    let (cat, pages) = minimal_catalog();
+    fb.add(1, 0, &cat);
+    fb.add(2, 0, &pages);
+    expect.insert(1, Expect::Value(cat));
+    expect.insert(2, Expect::Value(pages));
+    let mut xref_numbers: Vec<u64> = vec![];
+    let mut last_id = vec![];
+    for sec in 0..nsec {
+        let stream = match fmt {
+            0 => false,
+            1 => true,
+            2 => sec % 2 == 1,
+            _ => sec < nsec / 2,
+        };
+        // which object this section touches, and how
+        let nr = match touch {
+            2 => 3,
+            _ => 3 + (sec % 3) as u64,
+        };
+        let free = touch == 1 && sec % 2 == 1 && *in_use.get(&nr).unwrap_or(&false);
+        let g = *cur_gen.get(&nr).unwrap_or(&0);
+        if sec == 0 {
+            for n in 3..6u64 {
+                let v = tagged(0, 0, n);
+                fb.add(n, 0, &v);
+                in_use.insert(n, true);
+                expect.insert(n, Expect::Value(v));
+            }
+        } else if free {
+            cur_gen.insert(nr, g + 1);
+            in_use.insert(nr, false);
+            fb.free(nr, g + 1);
+            expect.insert(nr, Expect::Missing);
+        } else {
+            let v = tagged(sec % 4, sec, nr);
+            fb.add(nr, g, &v);
+            in_use.insert(nr, true);
+            expect.insert(nr, Expect::Value(v));
+        }
+        let id = format!("id-of-section-{}", sec);
+        last_id = id.clone().into_bytes();
+        let extra = [("Root", Val::r(1)), ("ID", Val::Array(vec![Val::str(&id), Val::str(&id)]))];
+        if stream {
+            let x = if xnr == 1 { 6 } else { 6 + sec as u64 };
+            xref_numbers.push(x);
+            let mut o = XrefStreamOpts::new(x);
+            o.flate = sec % 2 == 1;
+            fb.finish_stream(&extra, &o);
+        } else {
+            fb.finish_table(&extra, Split::Runs);
+        }
+    }
+    let size = fb.size;
+    let bytes = fb.bytes();
+    t.evaluations += 1;
+    t.distinct.insert(fnv_mix(fnv(&bytes), cache as u64));
+    if ch.want_sample {
+        println!("chain of {} sections:\n{}", nsec, String::from_utf8_lossy(&bytes));
+    }
+    let check = |r: &dyn Fn(u64) -> pdf::error::Result<pdf::primitive::Primitive>, root: u64, tsize: i32, tid: Option<Vec<u8>>, cmp: &dyn Fn(&pdf::primitive::Primitive, &Val) -> std::result::Result<(), String>| -> std::result::Result<(), (String, String)> {
+        for nr in 1..size {
+            if xref_numbers.contains(&nr) {
+                continue;
+            }
+            match (expect.get(&nr).cloned().unwrap_or(Expect::Missing), r(nr)) {
+                (Expect::Value(v), Ok(p)) => {
+                    if let Err(m) = cmp(&p, &v) {
+                        return Err(("stale-or-wrong-value".into(), format!("object {}: {}", nr, m)));
+                    }
+                }
+                (Expect::Value(v), Err(e)) => return Err((format!("error:{}", err_variant(&e)), format!("object {} should be {}: {}", nr, show_val(&v), truncate(&format!("{}", err_root(&e)), 160)))),
+                (Expect::Missing, Ok(p)) => return Err(("free-or-undefined-resolves".into(), format!("object {} is free/undefined in the newest section that mentions it but resolves to {}", nr, show_prim(&p)))),
+                (Expect::Missing, Err(e)) => {
+                    let v = err_variant(&e);
+                    if !matches!(v.as_str(), "FreeObject" | "NullRef" | "UnspecifiedXRefEntry") {
+                        return Err((format!("missing-object-error:{}", v), format!("object {}: {}", nr, truncate(&format!("{}", err_root(&e)), 160))));
+                    }
+                }
+            }
+        }
+        if root != 1 {
+            return Err(("trailer-root".into(), format!("trailer /Root is object {}", root)));
+        }
+        if tsize as u64 != size {
+            return Err(("trailer-size".into(), format!("trailer /Size {} expected {}", tsize, size)));
+        }
+        if tid != Some(last_id.clone()) {
+            return Err(("trailer-id".into(), "trailer /ID is not the newest section's".into()));
+        }
+        Ok(())
+    };
+    let res = catch(|| -> std::result::Result<(), (String, String)> {
+        if cache == 0 {
+            let file = FileOptions::uncached().load(bytes.clone()).map_err(|e| (format!("load-error:{}", err_variant(&e)), truncate(&format!("{}", err_root(&e)), 200)))?;
+            let r = file.resolver();
+            check(&|nr| r.resolve(PlainRef { id: nr, gen: 0 }), file.trailer.root.get_ref().get_inner().id, file.trailer.size, file.trailer.id.get(0).map(|s| s.as_bytes().to_vec()), &|p, v| cmp_prim(p, v, false, &r))
+        } else {
+            let file = FileOptions::cached().load(bytes.clone()).map_err(|e| (format!("load-error:{}", err_variant(&e)), truncate(&format!("{}", err_root(&e)), 200)))?;
+            let r = file.resolver();
+            check(&|nr| r.resolve(PlainRef { id: nr, gen: 0 }), file.trailer.root.get_ref().get_inner().id, file.trailer.size, file.trailer.id.get(0).map(|s| s.as_bytes().to_vec()), &|p, v| cmp_prim(p, v, false, &r))
+        }
+    });
+    let verdict = match res {
+        Err((loc, msg)) => Err((panic_kind(&loc), msg)),
+        Ok(r) => r,
+    };
+    match verdict {
+        Ok(()) => t.outcome("ok"),
+        Err((kind, detail)) => {
+            t.outcome(&kind);
+            let mut devs = vec![format!("sections={}", nsec), format!("formats={}", CHAIN_FORMAT[fmt])];
+            if xnr == 1 {
+                devs.push(format!("xref-stream-number={}", CHAIN_XREF_NR[xnr]));
+            }
+            if touch != 0 {
+                devs.push(format!("touch={}", CHAIN_TOUCH[touch]));
+            }
+            if cache == 1 {
+                devs.push("cache=cached".into());
+            }
+            t.fail("c02.chain", &kind, devs, detail, ch.replay_value("c02.chain"));
+        }
+    }
+}
+
 pub fn run(tier: Tier, _seed: u64, tally: &mut Tally) -> CheckMeta {
     let nobj = if tier.thorough() { 3 } else { 2 };
     if tier.thorough() {
@@ -220,17 +366,18 @@ pub fn run(tier: Tier, _seed: u64, tally: &mut Tally) -> CheckMeta {
     }
     if !tier.thorough() {
         N_OBJECTS.store(2, Ordering::Relaxed);
-        explore("c02.history", Limits::new(1).wall(100), tally, history_case);
+        explore("c02.history", Limits::new(1).wall(600), tally, history_case);
     }
     N_OBJECTS.store(3, Ordering::Relaxed);
-    explore("c02.history", Limits::new(if tier.thorough() { 1 } else { 0 }).wall(if tier.thorough() { 3000 } else { 100 }), tally, history_case);
+    explore("c02.history", Limits::new(if tier.thorough() { 1 } else { 0 }).wall(if tier.thorough() { 3000 } else { 600 }), tally, history_case);
+    explore("c02.chain", Limits::new(0), tally, chain_case);
     tally.validated = tally.evaluations;
     tally.sample(json!({"history": ["s0:table 3=direct 4=direct", "s1:stream 3=compressed 4=free", "s2:table 3=absent 4=direct"], "oracle": "resolve(3) = value of section 1, resolve(4) = value of section 2 (generation 1)"}));
     tally.sample(json!({"history": ["s0:stream 3=compressed 4=absent", "s1:stream 3=free 4=compressed"], "oracle": "resolve(3) -> FreeObject"}));
     CheckMeta {
         prop: "C02",
         level: "model_checking",
-        rule: format!("full product of update histories: 1..3 sections x {{table, stream}} x subsection split x per object number ({} numbers) {{absent, direct, compressed, free}} as free dimensions (full product), with option deviations (quick: <= 1 for two object numbers, 0 for three; thorough: <= 2 for two, <= 1 for three) among {{subsection split per entry, own /Root, a new object number, value kind int/name/array, layout: varied object numbers start at 1 instead of 3 / an update that frees objects does not restate object 0}}; ill-formed histories (compressed object in a table section or with generation > 0) are skipped and not counted. Each file is produced by the independent assembler (generations bumped on free/re-use, free list linked), loaded with the library and every object number below /Size resolved and compared with the reference model (map number -> newest mention); trailer root/size/ID must be the newest section's. Non-trivial = more than one section; distinct by file hash.", nobj),
+        rule: format!("full product of update histories: 1..3 sections x {{table, stream}} x subsection split x per object number ({} numbers) {{absent, direct, compressed, free}} as free dimensions (full product), with option deviations (quick: <= 1 for two object numbers, 0 for three; thorough: <= 2 for two, <= 1 for three) among {{subsection split per entry, own /Root, a new object number, value kind int/name/array, layout: varied object numbers start at 1 instead of 3 / an update that frees objects does not restate object 0, free entries keep the generation of the deleted object}}; ill-formed histories (compressed object in a table section or with generation > 0) are skipped and not counted. Each file is produced by the independent assembler (generations bumped on free/re-use, free list linked), loaded with the library and every object number below /Size resolved and compared with the reference model (map number -> newest mention); trailer root/size/ID must be the newest section's. Non-trivial = more than one section; distinct by file hash. Long chains: full product of {:?} sections x formats {:?} x xref stream numbering {:?} x touched objects {:?} x {:?}: three objects rewritten (or freed and re-used) again and again, so that sections outnumber objects.", nobj, CHAIN_LEN, CHAIN_FORMAT, CHAIN_XREF_NR, CHAIN_TOUCH, CHAIN_CACHE),
         assumptions: vec!["hybrid-reference files (/XRefStm) are not generated".into(), "object numbers of the file's own xref/object streams are not compared".into()],
         exhaustive: true,
         bounds: json!({"sections": 3, "objects": 3, "option_deviations": if tier.thorough() { 2 } else { 1 }}),
@@ -240,5 +387,9 @@ pub fn run(tier: Tier, _seed: u64, tally: &mut Tally) -> CheckMeta {
 pub fn replay(case: &Value, tally: &mut Tally) {
     let picks: Vec<u32> = case["picks"].as_array().map(|a| a.iter().map(|x| x.as_u64().unwrap() as u32).collect()).unwrap_or_default();
     N_OBJECTS.store(case["n_objects"].as_u64().unwrap_or(2) as usize, Ordering::Relaxed);
-    run_one(&picks, tally, history_case);
+    if case["engine"].as_str() == Some("c02.chain") {
+        run_one(&picks, tally, chain_case);
+    } else {
+        run_one(&picks, tally, history_case);
+    }
 }
